@@ -85,6 +85,19 @@ func c06Cases() []c06Case {
 			"wrap.vuego": `<section><template include="inner.vuego"><slot>WRAP-FB</slot></template></section>`, "inner.vuego": `<p><slot>INNER-FB</slot></p>`}, d, "WRAP-FB"},
 		c06Case{"named-slot-forwarded", map[string]string{"p.vuego": `<template include="wrap.vuego"><template #head>H-{{ other }}</template></template>`,
 			"wrap.vuego": `<section><template include="inner.vuego"><template #title><slot name="head">WRAP-HEAD-FB</slot></template></template></section>`, "inner.vuego": `<h1><slot name="title">T-FB</slot></h1>`}, d, "H-OTHER"},
+		// forwarding through TWO levels: the wrapper's own <slot> stands inside an include that is itself content supplied to another include
+		c06Case{"slot-forwarded-through-nested-include", map[string]string{"p.vuego": `<template include="panel.vuego"><p>BODY-{{ name }}</p></template>`,
+			"panel.vuego": `<section><template include="card.vuego"><template include="box.vuego"><slot>PANEL-FB</slot></template></template></section>`,
+			"card.vuego": `<div class="card"><slot>CARD-FB</slot></div>`, "box.vuego": `<div class="box"><slot>BOX-FB</slot></div>`}, d, "BODY-NAME"},
+		c06Case{"slot-forwarded-through-nested-include-unfilled", map[string]string{"p.vuego": `<template include="panel.vuego"></template>`,
+			"panel.vuego": `<section><template include="card.vuego"><template include="box.vuego"><slot>PANEL-FB</slot></template></template></section>`,
+			"card.vuego": `<div class="card"><slot>CARD-FB</slot></div>`, "box.vuego": `<div class="box"><slot>BOX-FB</slot></div>`}, d, "PANEL-FB"},
+		c06Case{"named-slot-forwarded-through-nested-include", map[string]string{"p.vuego": `<template include="panel.vuego"><template #head>H-{{ other }}</template><i>D</i></template>`,
+			"panel.vuego": `<section><template include="card.vuego"><u>c</u><template include="box.vuego"><template #title><slot name="head">PANEL-HEAD-FB</slot></template><slot>PANEL-FB</slot></template></template></section>`,
+			"card.vuego": `<div class="card"><slot>CARD-FB</slot></div>`, "box.vuego": `<div class="box"><h1><slot name="title">T-FB</slot></h1><slot>BOX-FB</slot></div>`}, d, "cH-OTHERD"},
+		c06Case{"slot-forwarded-through-three-includes", map[string]string{"p.vuego": `<template include="panel.vuego"><p>BODY</p></template>`,
+			"panel.vuego": `<template include="card.vuego"><template include="box.vuego"><template include="card.vuego"><slot>PANEL-FB</slot></template></template></template>`,
+			"card.vuego": `<div class="card"><slot>CARD-FB</slot></div>`, "box.vuego": `<div class="box"><slot>BOX-FB</slot></div>`}, d, "BODY"},
 		// nested instance with nothing supplied keeps its own fallback although the outer instance was given content for the same slot name
 		c06Case{"nested-unsupplied-keeps-fallback", map[string]string{"p.vuego": `<template include="panel.vuego"><i>hello</i></template>`,
 			"panel.vuego": `<div><template include="badge.vuego"></template><slot>PANEL-FB</slot></div>`, "badge.vuego": `<span><slot>new</slot></span>`}, d, "newhello"},
